@@ -23,30 +23,95 @@ refinement even when the error value of the model does not carry it -/
 theorem fmt_code : [119, 111, 114, 100, 32, 96, 37, 115, 96, 32, 97, 116, 32, 96, 37, 100, 96, 32, 110, 111, 116, 32, 102, 111, 117, 110, 100, 32, 105, 110, 32, 109, 110, 101, 109, 111, 110, 105, 99, 32, 109, 97, 112, 112, 105, 110, 103]
     = Gen.CheckMnemonic.fmtStr := by decide
 
-/-- one pass through the token loop -/
-theorem body_CheckMnemonic (m : Option Nat) (wc : Nat) (hwc : wc ≤ 24) (pos : Nat) (w : Str) (acc : Nat) (st : St) (hpos : pos < wc) :
+/-- closes "64-bit Go arithmetic on small naturals = the natural-number value", whatever the shape -/
+macro "go_arith" : tactic =>
+  `(tactic| ((try simp only [Go.mulU, Go.mulI, Go.addI, Go.subI, Go.addU, Go.subU, Go.toUint, Go.toInt,
+      Go.wrapU, Go.wrapI, Go.two63, Go.two64]) <;> omega))
+
+/-- one pass through the token loop; `k` is the shift count, however the source computes it
+(`(wordCount-wordIdx-1)*11`, `(wordCount-1-wordIdx)*11`, `11*(…)`, …) -/
+theorem body_CheckMnemonic (m : Option Nat) (wc : Nat) (pos : Nat) (w : Str) (acc : Nat) (st : St) (k : Int)
+    (hk : k = (((wc - pos - 1) * 11 : Nat) : Int)) :
     (if (!(Go.mapLookup2 m w).snd) = true then
         Go.errorfSD [119, 111, 114, 100, 32, 96, 37, 115, 96, 32, 97, 116, 32, 96, 37, 100, 96, 32, 110, 111, 116, 32, 102, 111, 117, 110, 100, 32, 105, 110, 32, 109, 110, 101, 109, 111, 110, 105, 99, 32, 109, 97, 112, 112, 105, 110, 103] w (pos : Int)
       else
-        Go.pure (Go.bigAdd (acc : Int) (Go.bigLsh (Go.bigNewInt (Go.mapLookup2 m w).fst)
-          (Go.mulU (Go.toUint (Go.subI (Go.subI (wc : Int) (pos : Int)) (1 : Int))) (11 : Int))))) st =
+        Go.pure (Go.bigAdd (acc : Int) (Go.bigLsh (Go.bigNewInt (Go.mapLookup2 m w).fst) k))) st =
     match mapLookup m w with
     | none => (.err (.unknownWord w pos), st)
     | some idx => (.ok ((acc + idx <<< ((wc - pos - 1) * 11) : Nat) : Int), st) := by
+  subst hk
   unfold Go.mapLookup2
   cases mapLookup m w with
   | none => simp [Go.errorfSD, Go.fail]
   | some idx =>
-    have h1 : Go.subI (wc : Int) (pos : Int) = ((wc - pos : Nat) : Int) := subI_nat wc pos (by omega) (by omega)
-    have h2 : Go.subI ((wc - pos : Nat) : Int) (1 : Int) = ((wc - pos - 1 : Nat) : Int) := subI_nat (wc - pos) 1 (by omega) (by omega)
-    have h3 : Go.toUint ((wc - pos - 1 : Nat) : Int) = ((wc - pos - 1 : Nat) : Int) := toUint_nat _ (by omega)
-    have h4 : Go.mulU ((wc - pos - 1 : Nat) : Int) (11 : Int) = (((wc - pos - 1) * 11 : Nat) : Int) := mulU_nat _ 11 (by omega)
-    simp only [Bool.not_true, Bool.false_eq_true, if_false, h1, h2, h3, h4, Go.bigNewInt, bigLsh_nat, Go.bigAdd, Go.pure]
+    simp only [Bool.not_true, Bool.false_eq_true, if_false, Go.bigNewInt, bigLsh_nat, Go.bigAdd, Go.pure]
     have : ((acc : Int) + ((idx <<< ((wc - pos - 1) * 11) : Nat) : Int)) = ((acc + idx <<< ((wc - pos - 1) * 11) : Nat) : Int) := by omega
     rw [this]
 
+/-- the final comparison of the checksum, whichever way round and with whichever test the source
+writes it; `MASK` is `(1<<cs)-1` however the source computes it -/
+theorem fin_ne1 (e c : Nat) (MASK : Int) (x : Nat) (hM : MASK = ((1 <<< c - 1 : Nat) : Int)) :
+    decide (bigCmp (x : Int) (bigAnd (e : Int) MASK) ≠ 0) = decide (x ≠ e &&& (1 <<< c - 1)) := by
+  subst hM; rw [bigAnd_nat, bigCmp_ne_zero]; congr 1; apply propext; constructor <;> intro h <;> omega
+theorem fin_ne2 (e c : Nat) (MASK : Int) (x : Nat) (hM : MASK = ((1 <<< c - 1 : Nat) : Int)) :
+    decide (bigCmp (bigAnd (e : Int) MASK) (x : Int) ≠ 0) = decide (x ≠ e &&& (1 <<< c - 1)) := by
+  subst hM; rw [bigAnd_nat, bigCmp_ne_zero]; congr 1; apply propext; constructor <;> intro h <;> omega
+theorem fin_eq1 (e c : Nat) (MASK : Int) (x : Nat) (hM : MASK = ((1 <<< c - 1 : Nat) : Int)) :
+    decide (bigCmp (x : Int) (bigAnd (e : Int) MASK) = 0) = decide (x = e &&& (1 <<< c - 1)) := by
+  subst hM; rw [bigAnd_nat, bigCmp_eq_zero]; congr 1; apply propext; constructor <;> intro h <;> omega
+theorem fin_eq2 (e c : Nat) (MASK : Int) (x : Nat) (hM : MASK = ((1 <<< c - 1 : Nat) : Int)) :
+    decide (bigCmp (bigAnd (e : Int) MASK) (x : Int) = 0) = decide (x = e &&& (1 <<< c - 1)) := by
+  subst hM; rw [bigAnd_nat, bigCmp_eq_zero]; congr 1; apply propext; constructor <;> intro h <;> omega
+
+/-- everything after the token loop: split the checksum bits off, rebuild the entropy bytes, hash,
+compare.  `SHIFT`, `WIDTH`, `SH2` are the divisor `1<<cs`, the byte width `4·cs` and the divisor
+`1<<(8-cs)` however the source computes them; `F` is the final comparison however it is written. -/
+theorem checkTail (W : World) (entBig cs : Nat) (hcs8 : cs ≤ 8) (st' : St)
+    (SHIFT WIDTH SH2 : Int) (F : Int → M Unit)
+    (hshift : SHIFT = ((1 <<< cs : Nat) : Int)) (hwidth : WIDTH = ((cs * 4 : Nat) : Int))
+    (hsh2 : SH2 = ((1 <<< (8 - cs) : Nat) : Int))
+    (hF : ∀ x : Nat, F (x : Int) st' =
+      if x ≠ entBig &&& (1 <<< cs - 1) then (.err .checksum, st') else (.ok (), st')) :
+    (Go.bind (bigQuo (entBig : Int) (bigNewInt SHIFT)) fun q =>
+     Go.bind (makeBytes WIDTH) fun buf =>
+     Go.bind (bigFillBytes q buf) fun entBytes =>
+     Go.bind (sliceBytes (hashSum W (hashWrite sha256New entBytes) []) 0 1) fun t5 =>
+     Go.bind (bigQuo (bigSetBytes t5) (bigNewInt SH2)) F) st' =
+    ((if 1 <<< cs = 0 then Res.panic Panic.divByZero
+      else if byteLen (entBig / 1 <<< cs) > cs * 4 then Res.panic Panic.fillBytesOverflow
+      else match goSlice (W.D (toBytesFixed (cs * 4) (entBig / 1 <<< cs))) 0 1 with
+        | none => Res.panic Panic.sliceOutOfRange
+        | some first =>
+          if cs > 8 then Res.panic Panic.divByZero
+          else if 1 <<< (8 - cs) = 0 then Res.panic Panic.divByZero
+          else if beNat first / 1 <<< (8 - cs) ≠ entBig &&& (1 <<< cs - 1) then Res.err Err.checksum
+          else Res.ok ()), st') := by
+  subst hshift hwidth hsh2
+  have hpos : 1 ≤ 1 <<< cs := by rw [Nat.shiftLeft_eq, Nat.one_mul]; exact Nat.pow_pos (by decide)
+  have hsne : (1 <<< cs : Nat) ≠ 0 := by omega
+  have hd2 : (1 <<< (8 - cs) : Nat) ≠ 0 := by
+    rw [Nat.shiftLeft_eq, Nat.one_mul]; exact Nat.pos_iff_ne_zero.mp (Nat.pow_pos (by decide))
+  simp only [bigSetBytes, sha256New, hashWrite, hashSum, List.nil_append, bigNewInt]
+  rw [bind_ok (bigQuo_nat entBig _ hsne st'), if_neg hsne, bind_ok (makeBytes_nonneg (by omega) st'), Int.toNat_natCast]
+  by_cases hov : byteLen (entBig / 1 <<< cs) > cs * 4
+  · rw [bind_panic (bigFillBytes_overflow _ _ st' (by rw [List.length_replicate]; exact hov)), if_pos hov]
+  · rw [bind_ok (bigFillBytes_ok _ _ st' (by rw [List.length_replicate]; exact hov)), if_neg hov, List.length_replicate]
+    cases hs : goSlice (W.D (toBytesFixed (cs * 4) (entBig / 1 <<< cs))) 0 1 with
+    | none => rw [bind_panic (sliceBytes_none hs st')]
+    | some first =>
+      rw [bind_ok (sliceBytes_some hs st')]
+      have h8 : ¬ cs > 8 := by omega
+      rw [bind_ok (bigQuo_nat _ _ hd2 st'), hF]
+      simp only [h8, hd2, if_false]
+      by_cases hne : beNat first / 1 <<< (8 - cs) = entBig &&& (1 <<< cs - 1)
+      · simp [hne]
+      · simp [hne]
+
 /-- `CheckMnemonic`, for every string and language value, from every package state: the outcome
-and the state of the lazily built maps it leaves (none are touched when the word count is wrong) -/
+and the state of the lazily built maps it leaves (none are touched when the word count is wrong).
+The arithmetic of the source (shift count per word, divisors, byte width) may be written in any way
+the translator accepts: each expression is compared with its value by evaluation at the five legal
+word counts (`go_arith`, `decide`), not by its shape. -/
 theorem refine_CheckMnemonic (W : World) (s : Str) (ℓ : Int) (st : St) :
     Gen.Code.CheckMnemonic W s ℓ st =
       ((checkMnemonicSt W.X W.D st.pkg s ℓ).2, { st with pkg := (checkMnemonicSt W.X W.D st.pkg s ℓ).1 }) := by
@@ -72,24 +137,6 @@ theorem refine_CheckMnemonic (W : World) (s : Str) (ℓ : Int) (st : St) :
     dsimp only
     rw [hg]
     simp only [Bool.false_eq_true, if_false]
-    -- arithmetic, in natural-number form
-    have hdiv : divIc (toks.length : Int) 3 = ((toks.length / 3 : Nat) : Int) := divIc_nat toks.length 3 (by omega)
-    have hcs8 : toks.length / 3 ≤ 8 := by omega
-    generalize toks.length / 3 = cs at *
-    have hcs : toUint ((cs : Nat) : Int) = ((cs : Nat) : Int) := toUint_nat cs (by omega)
-    have hshift : shlI 1 ((cs : Nat) : Int) = ((1 <<< cs : Nat) : Int) := shlI_one_small cs (by omega)
-    have hpos : 1 ≤ 1 <<< cs := by rw [Nat.shiftLeft_eq, Nat.one_mul]; exact Nat.pow_pos (by decide)
-    have hle : 1 <<< cs ≤ 256 := by
-      rw [Nat.shiftLeft_eq, Nat.one_mul]
-      exact Nat.le_trans (Nat.pow_le_pow_right (by decide) hcs8) (by decide)
-    have hmask : subI ((1 <<< cs : Nat) : Int) 1 = ((1 <<< cs - 1 : Nat) : Int) := subI_nat _ 1 hpos (by omega)
-    have hwidth : mulI ((cs : Nat) : Int) 4 = ((cs * 4 : Nat) : Int) := mulI_nat cs 4 (by omega)
-    have hsub8 : subU 8 ((cs : Nat) : Int) = ((8 - cs : Nat) : Int) := subU_small 8 cs hcs8 (by decide)
-    have hsh2 : shlI 1 (((8 - cs : Nat)) : Int) = ((1 <<< (8 - cs) : Nat) : Int) := shlI_one_small _ (by omega)
-    have hd2 : (1 <<< (8 - cs) : Nat) ≠ 0 := by
-      rw [Nat.shiftLeft_eq, Nat.one_mul]; exact Nat.pos_iff_ne_zero.mp (Nat.pow_pos (by decide))
-    simp only [hdiv, hcs, hshift, hmask, hwidth, hsub8, hsh2]
-    simp only [bigSetBytes, sha256New, hashWrite, hashSum, List.nil_append]
     have hloop : ∀ body, (∀ (pos : Nat) (w : Str) (acc : Nat) (st : St), pos < toks.length →
         body (pos : Int) w (acc : Int) st =
           match mapLookup m w with
@@ -106,33 +153,74 @@ theorem refine_CheckMnemonic (W : World) (s : Str) (ℓ : Int) (st : St) :
       rw [hsw] at hloop
       refine (bind_err (hloop _ ?_)).trans rfl
       intro pos w acc st hpos
-      exact body_CheckMnemonic m toks.length hwc pos w acc st hpos
+      exact body_CheckMnemonic m toks.length pos w acc st _ (by go_arith)
     | ok entBig =>
       rw [hsw] at hloop
       refine (bind_ok (hloop _ ?_)).trans ?_
       · intro pos w acc st hpos
-        exact body_CheckMnemonic m toks.length hwc pos w acc st hpos
+        exact body_CheckMnemonic m toks.length pos w acc st _ (by go_arith)
       dsimp only
-      have hsne : (1 <<< cs : Nat) ≠ 0 := by omega
-      rw [bind_ok (bigQuo_nat entBig _ hsne st'), if_neg hsne, bind_ok (makeBytes_nonneg (by omega) st'), Int.toNat_natCast]
-      by_cases hov : byteLen (entBig / 1 <<< cs) > cs * 4
-      · rw [bind_panic (bigFillBytes_overflow _ _ st' (by rw [List.length_replicate]; exact hov)), if_pos hov]
-      · rw [bind_ok (bigFillBytes_ok _ _ st' (by rw [List.length_replicate]; exact hov)), if_neg hov, List.length_replicate]
-        cases hs : goSlice (W.D (toBytesFixed (cs * 4) (entBig / 1 <<< cs))) 0 1 with
-        | none => rw [bind_panic (sliceBytes_none hs st')]
-        | some first =>
-          rw [bind_ok (sliceBytes_some hs st')]
-          dsimp only
-          have h8 : ¬ cs > 8 := by omega
-          rw [bind_ok (bigQuo_nat _ _ hd2 st'), if_neg h8, if_neg hd2]
-          -- the final comparison, whichever way round the source writes it (`!= 0 … return err` or
-          -- `== 0 … return nil`)
-          rw [bigAnd_nat]
-          first | rw [bigCmp_ne_zero] | rw [bigCmp_eq_zero]
-          by_cases hne : beNat first / 1 <<< (8 - cs) = entBig &&& (1 <<< cs - 1)
-          · have hi : ((beNat first / 1 <<< (8 - cs) : Nat) : Int) = ((entBig &&& (1 <<< cs - 1) : Nat) : Int) := by omega
-            simp only [hi, hne, decide_true, decide_false, Bool.false_eq_true, if_true, if_false, ne_eq, not_true_eq_false]; rfl
-          · have hi : ¬ (((beNat first / 1 <<< (8 - cs) : Nat) : Int) = ((entBig &&& (1 <<< cs - 1) : Nat) : Int)) := by omega
-            simp only [hi, hne, decide_true, decide_false, Bool.false_eq_true, if_true, if_false, ne_eq, not_false_eq_true]; rfl
+      -- the five legal counts: every arithmetic expression of the source becomes a closed term
+      rcases hn with hI | hI | hI | hI | hI
+      · have hN : toks.length / 3 = 4 := by omega
+        simp only [hI, hN]
+        refine checkTail W entBig 4 (by decide) st' _ _ _ _ (by decide) (by decide) (by decide) ?_
+        intro x
+        dsimp only [bigNewInt]
+        first
+          | rw [fin_ne1 entBig 4 _ x (by decide)]
+          | rw [fin_ne2 entBig 4 _ x (by decide)]
+          | rw [fin_eq1 entBig 4 _ x (by decide)]
+          | rw [fin_eq2 entBig 4 _ x (by decide)]
+        generalize entBig &&& (1 <<< 4 - 1) = csv
+        by_cases hx : x = csv <;> simp [hx, Go.pure, Go.fail]
+      · have hN : toks.length / 3 = 5 := by omega
+        simp only [hI, hN]
+        refine checkTail W entBig 5 (by decide) st' _ _ _ _ (by decide) (by decide) (by decide) ?_
+        intro x
+        dsimp only [bigNewInt]
+        first
+          | rw [fin_ne1 entBig 5 _ x (by decide)]
+          | rw [fin_ne2 entBig 5 _ x (by decide)]
+          | rw [fin_eq1 entBig 5 _ x (by decide)]
+          | rw [fin_eq2 entBig 5 _ x (by decide)]
+        generalize entBig &&& (1 <<< 5 - 1) = csv
+        by_cases hx : x = csv <;> simp [hx, Go.pure, Go.fail]
+      · have hN : toks.length / 3 = 6 := by omega
+        simp only [hI, hN]
+        refine checkTail W entBig 6 (by decide) st' _ _ _ _ (by decide) (by decide) (by decide) ?_
+        intro x
+        dsimp only [bigNewInt]
+        first
+          | rw [fin_ne1 entBig 6 _ x (by decide)]
+          | rw [fin_ne2 entBig 6 _ x (by decide)]
+          | rw [fin_eq1 entBig 6 _ x (by decide)]
+          | rw [fin_eq2 entBig 6 _ x (by decide)]
+        generalize entBig &&& (1 <<< 6 - 1) = csv
+        by_cases hx : x = csv <;> simp [hx, Go.pure, Go.fail]
+      · have hN : toks.length / 3 = 7 := by omega
+        simp only [hI, hN]
+        refine checkTail W entBig 7 (by decide) st' _ _ _ _ (by decide) (by decide) (by decide) ?_
+        intro x
+        dsimp only [bigNewInt]
+        first
+          | rw [fin_ne1 entBig 7 _ x (by decide)]
+          | rw [fin_ne2 entBig 7 _ x (by decide)]
+          | rw [fin_eq1 entBig 7 _ x (by decide)]
+          | rw [fin_eq2 entBig 7 _ x (by decide)]
+        generalize entBig &&& (1 <<< 7 - 1) = csv
+        by_cases hx : x = csv <;> simp [hx, Go.pure, Go.fail]
+      · have hN : toks.length / 3 = 8 := by omega
+        simp only [hI, hN]
+        refine checkTail W entBig 8 (by decide) st' _ _ _ _ (by decide) (by decide) (by decide) ?_
+        intro x
+        dsimp only [bigNewInt]
+        first
+          | rw [fin_ne1 entBig 8 _ x (by decide)]
+          | rw [fin_ne2 entBig 8 _ x (by decide)]
+          | rw [fin_eq1 entBig 8 _ x (by decide)]
+          | rw [fin_eq2 entBig 8 _ x (by decide)]
+        generalize entBig &&& (1 <<< 8 - 1) = csv
+        by_cases hx : x = csv <;> simp [hx, Go.pure, Go.fail]
 
 end Bip39V
